@@ -19,4 +19,5 @@ let table : (string * (z list list list -> z list list)) list = [
   ("delay_oracle", e_delay_oracle);
   ("rdl_model", e_rdl_model);
   ("c08_replay", e_c08_replay);
+  ("udp_model", e_udp_model);
 ]
